@@ -444,6 +444,10 @@ class Transaction:
                     f"{method} requires a name or RRset as the first argument"
                 )
             assert rdataset is not None  # for type checkers
+            if len(rdataset) == 0:
+                # (an RRset argument without rdatas is refused the same way when
+                # it is converted above)
+                raise ValueError(f"{method} requires at least one rdata")
             if rdataset.rdclass != self.manager.get_class():
                 raise ValueError(f"{method} has objects of wrong RdataClass")
             if rdataset.rdtype == dns.rdatatype.SOA:
@@ -506,7 +510,9 @@ class Transaction:
                     f"{method} requires a name or RRset as the first argument"
                 )
             self._raise_if_not_empty(method, args)
-            if rdataset:
+            if rdataset is not None:
+                # (an rdataset or RRset without rdatas names nothing to delete; it
+                # is not a request to delete the whole name)
                 if rdataset.rdclass != self.manager.get_class():
                     raise ValueError(f"{method} has objects of wrong RdataClass")
                 existing = self._get_rdataset(name, rdataset.rdtype, rdataset.covers)
